@@ -138,6 +138,7 @@ class History:
         self.defs = {}             # lib index -> ModuleDef (kept alive)
         self.keep = []
         self.searchdir = bool(plan.get("relative"))      # register by bare file name; a search_dir/search_path op makes it findable
+        self.findable = not self.searchdir               # False until such an op has run: a load attempted before that finds no file
 
     # ------------------------------------------------------------ helpers
     def v(self, prop, cls, key, msg):
@@ -155,6 +156,8 @@ class History:
         fired = self._fired()
         for li in self.pending:
             fate = self.fate[li]
+            if not self.findable:
+                fate = "fail"
             if fate == "read":
                 fate = "fail" if fired.get("lib%d.in" % li) else "ok"
             if fate == "ok":
@@ -184,8 +187,9 @@ class History:
 
     def check_flag(self, where):
         flag = bool(self.call("interrogate_error_flag"))
-        if self.pending:
-            return        # loading is lazy: between registering a file and the next query either value is fine
+        # loading is lazy, but asking for the error flag is a query like any other: "a truncated file ... is reported
+        # through the error flag" holds at the moment the client asks, not only after some unrelated query
+        self.settle()
         if flag != self.failed_any:
             prop = "C12" if len(self.dbs) == 1 else "C13"
             self.v(prop, "error-flag", {"op": "error_flag", "expected": self.failed_any},
@@ -254,12 +258,18 @@ class History:
         os.unlink(p)
         return data
 
-    def verify(self, sweep=True, lookups=True):
+    def verify(self, sweep=True, lookups=True, dump_first=False):
         prop = "C12" if len(self.dbs) == 1 else "C13"
-        n = self.call("interrogate_number_of_types")          # a query: forces the lazy load
-        self.settle()
-        self.check_flag("verify")
-        raw = self.dump()
+        if dump_first:
+            # InterrogateDatabase::write as the very first observation after the requests: it must see them like any query
+            raw = self.dump()
+            self.settle()
+            self.check_flag("verify")
+        else:
+            n = self.call("interrogate_number_of_types")          # a query: forces the lazy load
+            self.settle()
+            self.check_flag("verify")
+            raw = self.dump()
         try:
             real = F.parse(raw)
         except F.FormatError as e:
@@ -606,6 +616,7 @@ class History:
             if k == "search_dir":
                 self.call("interrogate_add_search_directory", self.root.encode())
                 self.searchdir = True
+                self.findable = True
             elif k == "search_path":
                 # a search path of several components with the scratch directory in the middle
                 parts = []
@@ -620,6 +631,7 @@ class History:
                     parts.append(d)
                 self.call("interrogate_add_search_path", ":".join(parts).encode())
                 self.searchdir = True
+                self.findable = True
             elif k == "reg_db":
                 self.reg_db(op["lib"])
                 self.reg_order.append(op["lib"])
@@ -649,7 +661,7 @@ class History:
                 self.call(op["fn"], op["name"].encode("latin-1"))
                 self.settle()
             elif k == "verify":
-                self.verify(sweep=op.get("sweep", False), lookups=op.get("lookups", True))
+                self.verify(sweep=op.get("sweep", False), lookups=op.get("lookups", True), dump_first=op.get("dump_first", False))
             elif k == "uniq":
                 self.uniq_lookups(op)
             elif k == "roundtrip":
@@ -676,6 +688,10 @@ class History:
         order = [i for sec in ("wrappers", "functions", "types", "manifests", "elements", "make_seqs") for i in sorted(db[sec])]
         canonical = order == list(range(1, len(order) + 1))
         self.stats["roundtrip_canonical"] = self.stats.get("roundtrip_canonical", 0) + (1 if canonical else 0)
+        if not canonical and "real" in self.plan["universe"] and not self.plan.get("faults"):
+            # "all databases interrogate can produce": every file the tool writes is numbered the way the reader numbers it
+            self.v("C12", "roundtrip-bytes", {"op": "write(load(F))", "kind": "interrogate-wrote-non-canonical-indices", "minor": db["minor"]},
+                   "a database written by interrogate is not in the reader's index order (first indices %s), so write(load(F)) cannot equal F" % order[:8])
         if canonical and out != want:
             pos = next((i for i, (a, b) in enumerate(zip(out, want)) if a != b), min(len(out), len(want)))
             self.v("C12", "roundtrip-bytes", {"op": "write(load(F))", "kind": "bytes-differ", "minor": db["minor"]},
